@@ -50,6 +50,24 @@ def run(ck):
         fn = facts.fn(IS + name)
         cas = E.M(lambda t: E.strip(t).get("k") == "call" and E.strip(t).get("f", "").split("::")[-1] in ("compare_exchange_weak", "compare_exchange_strong"), "compare_exchange")
         sites = [ev for b in fn.blocks.values() for ev in b["ev"] if ev.get("e") == "call" and cas(ev["x"])]
+        # check-then-act: a value obtained by a separate load() must not steer a later fetch_*() on the same node
+        def on_node(ev_, ops):
+            if ev_.get("e") != "call":
+                return False
+            x_ = E.strip(ev_["x"])
+            o_ = E.strip(x_.get("o")) if "o" in x_ else None
+            return isinstance(o_, dict) and x_.get("f", "").split("::")[-1] in ops and \
+                ((o_.get("k") == "call" and o_.get("f") == IS + "nodeAt") or (o_.get("k") == "ref" and o_.get("d") == "node"))
+        evs = [ev for b in fn.blocks.values() for ev in b["ev"]]
+        loads = [ev for ev in evs if on_node(ev, {"load"})] + [ev for ev in evs if ev.get("e") == "call" and E.strip(ev["x"]).get("f", "").split("::")[-1].startswith("operator ") and on_node(ev, {E.strip(ev["x"])["f"].split("::")[-1]})]
+        rmws = [ev for ev in evs if on_node(ev, {"fetch_add", "fetch_sub", "fetch_or", "fetch_and", "fetch_xor", "exchange", "store", "operator="})]
+        loaded = {n for n, ds in ck.local_defs(fn).items() if any(c.get("f", "").split("::")[-1] == "load" for d in ds for c in E.calls_in(d))}
+        split = [ev for ev in rmws if loaded & ck.closure_mentions(fn, E.strip(ev["x"]))]
+        if split:
+            ck.violation("P3.check-then-act", "P3|%s|load-then-%s" % (name, E.strip(split[0]["x"])["f"].split("::")[-1]), fn.where(split[0]["l"]),
+                         "%s decides from a separately load()ed snapshot (%s) and then modifies the node with %s: two poppers can pick the same id between the load and the update "
+                         "(the choice must be made inside a compare_exchange loop)" % (name, sorted(loaded), E.strip(split[0]["x"])["f"].split("::")[-1]))
+            continue
         ck.need(len(sites) == 1, "C53: expected one CAS in %s" % name)
         x = E.strip(sites[0]["x"])
         if E.m_is_ref("oldValue")(x["a"][0]) and "newValue" in E.mentions(x["a"][1]):
